@@ -103,6 +103,9 @@ pub fn c14_str_eq(kind: Kind, t: &[u8], u: &str) -> Guard<Vec<(&'static str, boo
 				v.push(("Path==String", *r == us));
 				v.extend(extra_str_eq(kind, t, u));
 			}
+			Kind::Segment => {
+				v.extend(extra_str_eq(kind, t, u));
+			}
 			Kind::Authority => {
 				let r = Authority::new(s).ok().unwrap();
 				v.push(("Authority==&str", *r == u));
